@@ -265,6 +265,25 @@ where
         let mut raw_sequence = Vec::new();
         read_sequence_limit(&mut self.inner, len, &mut raw_sequence)?;
 
+        // The index gives the length of the sequence: fewer bases than it promises means the
+        // data ends early (e.g., a truncated file).
+        if let Some(record) = index
+            .as_ref()
+            .iter()
+            .find(|record| record.name() == region.name())
+        {
+            let available = usize::try_from(record.length())
+                .unwrap_or(usize::MAX)
+                .saturating_sub(start - 1);
+
+            if raw_sequence.len() < len.min(available) {
+                return Err(io::Error::new(
+                    io::ErrorKind::UnexpectedEof,
+                    "sequence is shorter than its index record",
+                ));
+            }
+        }
+
         let sequence = Sequence::from(raw_sequence);
 
         Ok(Record::new(definition, sequence))
